@@ -1,11 +1,19 @@
 /- Driver section RATE (C20): token bucket, write gate, send policies. -/
 import DhtVerif.Model.Rate
+import DhtVerif.Model.RateCancel
 import Driver.Util
 open Dht
 namespace Drv
 
 structure RateSt where
   b : Option Bucket := none
+  /-- limiter with `lastEvent`, for the `c…`/`cancel` ops (independent of `b`) -/
+  c : Option CBucket := none
+  /-- reservations handed out by `creserve`, by id (never removed) -/
+  resv : Array Resv := #[]
+
+def cstateStr (c : CBucket) : String :=
+  toString c.b.tokens ++ " " ++ toString c.b.last ++ " " ++ toString c.lastEvent
 
 def rateOutcomeStr : Outcome → String
   | .wrote => "wrote"
@@ -32,28 +40,28 @@ def stepRate (s : RateSt) (args : List String) : RateSt × String :=
   | ["new", p, q, burst, t0] =>
     match p.toNat?, q.toNat?, burst.toNat?, t0.toNat? with
     | some p, some q, some burst, some t0 =>
-      if q = 0 then (s, "bad-op") else ({ b := some (Bucket.new p q burst t0) }, "ok")
+      if q = 0 then (s, "bad-op") else ({ s with b := some (Bucket.new p q burst t0) }, "ok")
     | _, _, _, _ => (s, "bad-op")
-  | ["newinf"] => ({ b := some Bucket.newInf }, "ok")
+  | ["newinf"] => ({ s with b := some Bucket.newInf }, "ok")
   | ["allow", t] =>
     match s.b, t.toNat? with
-    | some b, some t => let r := b.allow t; ({ b := some r.2 }, boolStr r.1)
+    | some b, some t => let r := b.allow t; ({ s with b := some r.2 }, boolStr r.1)
     | _, _ => (s, "bad-op")
   | ["reserve", t, m] =>
     match s.b, t.toNat?, parseOptNat m with
     | some b, some t, some m =>
       let r := b.reserve t m
-      ({ b := some r.2 }, match r.1 with | some a => toString a | none => "no")
+      ({ s with b := some r.2 }, match r.1 with | some a => toString a | none => "no")
     | _, _, _ => (s, "bad-op")
   | ["give", t] =>
     match s.b, t.toNat? with
-    | some b, some t => let r := b.giveBack t; ({ b := some r.2 }, boolStr r.1)
+    | some b, some t => let r := b.giveBack t; ({ s with b := some r.2 }, boolStr r.1)
     | _, _ => (s, "bad-op")
   | ["gate", closed, blocked, rate, wait, m, t] =>
     match s.b, parseBool closed, parseBool blocked, parseBool rate, parseBool wait, parseOptNat m, t.toNat? with
     | some b, some c, some bl, some r, some w, some m, some t =>
       let o := sendGate c bl r w m b t
-      ({ b := some o.2 }, rateOutcomeStr o.1)
+      ({ s with b := some o.2 }, rateOutcomeStr o.1)
     | _, _, _, _, _, _, _ => (s, "bad-op")
   | ["gatef", closed, blocked, rate, wait, m, t, wok] =>
     match s.b, parseBool closed, parseBool blocked, parseBool rate, parseBool wait, parseOptNat m, t.toNat?, parseBool wok with
@@ -61,9 +69,9 @@ def stepRate (s : RateSt) (args : List String) : RateSt × String :=
       let o := sendGate c bl r w m b t
       match o.1 with
       | .wrote =>
-        if wok then ({ b := some o.2 }, "wrote")
-        else ({ b := some (afterWriteError r o.2 t).2 }, "wrote+fail")
-      | out => ({ b := some o.2 }, rateOutcomeStr out)
+        if wok then ({ s with b := some o.2 }, "wrote")
+        else ({ s with b := some (afterWriteError r o.2 t).2 }, "wrote+fail")
+      | out => ({ s with b := some o.2 }, rateOutcomeStr out)
     | _, _, _, _, _, _, _, _ => (s, "bad-op")
   | ["query", nf, na, wr, nwf, closed, blocked, m, delay, resp, failAt, tries, t] =>
     match s.b, parseBool nf, parseBool na, parseBool wr, parseBool nwf, parseBool closed, parseBool blocked with
@@ -71,7 +79,7 @@ def stepRate (s : RateSt) (args : List String) : RateSt × String :=
       match parseOptNat m, delay.toNat?, parseBool resp, failAt.toNat?, tries.toNat?, t.toNat? with
       | some m, some delay, some resp, some failAt, some tries, some t =>
         let r := querySend ⟨nf, na, wr, nwf⟩ c bl m delay resp failAt tries 0 0 b t
-        ({ b := some r.2.2 }, toString r.1 ++ " " ++ qendStr r.2.1)
+        ({ s with b := some r.2.2 }, toString r.1 ++ " " ++ qendStr r.2.1)
       | _, _, _, _, _, _ => (s, "bad-op")
     | _, _, _, _, _, _, _ => (s, "bad-op")
   | ["within", p, q, burst, n, dt] =>
@@ -82,8 +90,46 @@ def stepRate (s : RateSt) (args : List String) : RateSt × String :=
     match s.b, parseBool rate, t.toNat? with
     | some b, some r, some t =>
       let o := afterWriteError r b t
-      ({ b := some o.2 }, match o.1 with | some g => boolStr g | none => "-")
+      ({ s with b := some o.2 }, match o.1 with | some g => boolStr g | none => "-")
     | _, _, _ => (s, "bad-op")
+  | ["cnew", p, q, burst, t0] =>
+    match p.toNat?, q.toNat?, burst.toNat?, t0.toNat? with
+    | some p, some q, some burst, some t0 =>
+      if q = 0 then (s, "bad-op") else ({ s with c := some (CBucket.new p q burst t0), resv := #[] }, "ok")
+    | _, _, _, _ => (s, "bad-op")
+  | ["callow", t] =>
+    match s.c, t.toNat? with
+    | some c, some t => let r := c.allow t; ({ s with c := some r.2 }, boolStr r.1)
+    | _, _ => (s, "bad-op")
+  | ["creserve", t, m] =>
+    match s.c, t.toNat?, parseOptNat m with
+    | some c, some t, some m =>
+      let r := c.reserve t m
+      match r.1 with
+      | some rv =>
+        ({ s with c := some r.2, resv := s.resv.push rv },
+         -- only what the Go side can observe: the id and the slot
+         toString s.resv.size ++ " " ++ toString rv.slot)
+      | none => ({ s with c := some r.2 }, "no")
+    | _, _, _ => (s, "bad-op")
+  | ["cgive", t] =>
+    match s.c, t.toNat? with
+    | some c, some t => let r := c.giveBack t; ({ s with c := some r.2 }, boolStr r.1)
+    | _, _ => (s, "bad-op")
+  | ["cancel", id, t] =>
+    match s.c, id.toNat?, t.toNat? with
+    | some c, some id, some t =>
+      match s.resv[id]? with
+      | some rv =>
+        let c' := c.cancelAt rv t
+        -- the limiter's fields are not observable from Go; later allow/reserve answers are
+        ({ s with c := some c' }, "ok")
+      | none => (s, "bad-op")
+    | _, _, _ => (s, "bad-op")
+  | ["cstate"] =>
+    match s.c with
+    | some c => (s, cstateStr c)
+    | none => (s, "bad-op")
   | ["policy", "q", first, nf, na, wr, nwf] =>
     match parseBool first, parseBool nf, parseBool na, parseBool wr, parseBool nwf with
     | some first, some nf, some na, some wr, some nwf => (s, policyStr (queryPolicy first ⟨nf, na, wr, nwf⟩))
